@@ -65,3 +65,9 @@ Lemma Gen_no_shared_mutation :
   C09Static.shared_mutations = ["assign:Access.parent_permissions:_parent_permissions";
                                 "escape:Application._handle_request:_extra_headers"].
 Proof. reflexivity. Qed.
+
+(* ---------------------------------------------------------------- 4. a failed acquisition fails the request *)
+(* RwLock.acquire and acquire_lock have no except clause that swallows a failure to obtain the lock: when flock()
+   (or the condition wait) fails, the exception propagates and the critical section is NOT entered. *)
+Lemma Gen_lock_failure_propagates : C09Static.lock_swallow_sites = [].
+Proof. reflexivity. Qed.
